@@ -1,12 +1,12 @@
 """C10 plan (see lib/plan.py for the format)."""
-from plan import R, D, M, stages
+from plan import R, D, M, T, stages
 import fuzzstage
 
 PLAN = dict(
     extra={"thorough": [fuzzstage.diff_stage(7, "C10")]},
     **stages(
-        quick=[(R, "quick", 16), (D, "small", 16)],
-        thorough=[(R, "thorough", 16), (D, "quick", 16), (M, "mini", 8)],
+        quick=[(R, "quick", 16), (D, "small", 16), (T, "small", 16)],
+        thorough=[(R, "thorough", 16), (D, "quick", 16), (T, "quick", 16), (M, "mini", 8)],
     ),
     rule=("cases are distinfo documents generated from a model: (a) canonical texts (RCS Id line or the "
           "unexpanded $NetBSD$, blank line, 0-5 distfiles each with a non-empty subset/order of the six "
